@@ -286,6 +286,31 @@ theorem bundle_complete (imgs : List (Text × Nat)) (hsub : ∀ p ∈ imgs, p.1 
 example := bundle_complete [("amd64".toList, 0), ("arm/v6".toList, 1), ("arm/v7".toList, 2)]
   (by decide) (by decide) ["img:latest".toList, "img:v1".toList] (by decide)
 
+/-- T bundle_end_to_end: for every subset of AllArchs, every non-empty tag list, every iteration
+order `written` of the tag map's images, whatever the images' configs and layers (shared layers are
+written once), every size of manifest.json and every appended manifest list: BuildIndex's file is
+readable to its end, and what the reader sees holds the config and every layer of each image the
+index lists, and every appended entry (the manifests and index.json) -/
+theorem bundle_end_to_end (imgOf : Nat → Img) (imgs : List (Text × Nat))
+    (hsub : ∀ p ∈ imgs, p.1 ∈ allArchs) (hnd : (keysOf imgs).Nodup) (tags : List Text) (htags : tags ≠ [])
+    (written : List Nat)
+    (hw : ∀ i, i ∈ written ↔
+      i ∈ bundledImages Impl.archSuffix tags ((Impl.indexEntries imgs).map fun e => (e.2, e.1)))
+    (msize : Nat) (appended : List Entry) :
+    ∃ bs es, Impl.bundle (multiWrite (written.map imgOf) msize) appended = some bs ∧
+      readArchive bs = some es ∧
+      (∀ m ∈ (Impl.indexEntries imgs).map (fun e => (e.2, e.1)), Spec.HoldsImage (es.map (·.name)) (imgOf m.2)) ∧
+      (∀ a ∈ appended, a ∈ es) := by
+  have hne : multiWrite (written.map imgOf) msize ≠ [] := by simp [multiWrite]
+  obtain ⟨bs, hb, hr⟩ := bundle_readable (multiWrite (written.map imgOf) msize) appended hne
+  refine ⟨bs, _, hb, hr, ?_, fun a ha => List.mem_append_right _ ha⟩
+  intro m hm
+  have hin : m.2 ∈ written := (hw m.2).mpr (bundle_complete imgs hsub hnd tags htags m hm)
+  have := multiWrite_holds (written.map imgOf) msize (imgOf m.2) (List.mem_map.mpr ⟨_, hin, rfl⟩)
+  refine ⟨?_, ?_⟩
+  · simp only [List.map_append, List.mem_append]; exact Or.inl this.1
+  · intro l hl; simp only [List.map_append, List.mem_append]; exact Or.inl (this.2 l hl)
+
 /-- F12b witness: with the pinned suffix the bundle for {amd64, arm/v6, arm/v7} misses an image -/
 theorem pinned_bundle_incomplete :
     ¬ Spec.BundleComplete
